@@ -879,8 +879,10 @@ def plan(tier):
     for n, s in shp:
         items.append({"t": "prim", "name": n, "a": s, "n3": n3, "n2": n2})
         if s["kind"] in ("box", "spheroid", "mesh"):
-            for d in AXES:
-                items.append({"t": "proj", "name": n, "a": s, "dirs": [list(d)], "n3": 8 if tier == "quick" else 10, "n2": 5})
+            convex = s["kind"] != "mesh"
+            # even lattice sizes: no probe sits exactly midway between two opposite faces
+            for d in AXES[:2] if (convex and tier == "quick") else AXES:
+                items.append({"t": "proj", "name": n, "a": s, "dirs": [list(d)], "n3": 6 if tier == "quick" else 10, "n2": 5})
     if tier == "thorough":
         # a rotated non-convex volume: axis rays are oblique to every face
         rot = {"kind": "mesh", "cells": U_CELLS, "pos": [0.25, 0.0, 1.5], "dims": [3.0, 3.0, 1.5], "ypr": [0.35, 0.2, -0.15]}
